@@ -147,10 +147,9 @@ func makeAccumulatorFunc(expr parser.ItemType) (newAccumulatorFunc, error) {
 
 			return &accumulator{
 				AddFunc: func(v float64) {
-					if !hasValue {
+					// As in the Prometheus engine, a NaN is only kept if there is nothing else.
+					if !hasValue || value < v || math.IsNaN(value) {
 						value = v
-					} else {
-						value = math.Max(value, v)
 					}
 					hasValue = true
 				},
@@ -169,10 +168,9 @@ func makeAccumulatorFunc(expr parser.ItemType) (newAccumulatorFunc, error) {
 
 			return &accumulator{
 				AddFunc: func(v float64) {
-					if !hasValue {
+					// As in the Prometheus engine, a NaN is only kept if there is nothing else.
+					if !hasValue || value > v || math.IsNaN(value) {
 						value = v
-					} else {
-						value = math.Min(value, v)
 					}
 					hasValue = true
 				},
